@@ -131,7 +131,45 @@ class UBody:
             if a in (ROW, COL) and b in (ROW, COL) and a != b:
                 self.err("u1", "%s%s%s" % (a, {"Lt": "<", "Le": "<=", "Gt": ">", "Ge": ">="}[op], b), "ordering comparison of a %s with a %s: %s %s %s" % (a, b, self.sh(lo), op, self.sh(ro)), span)
             return None
+        if op in ("Eq", "Ne"):
+            # equalities between the two dimension *counts* are the zero-rule guard (assert_eq!(num_rows, num_cols));
+            # an index / mid-point of one axis compared for equality with the count of the other axis is a mix-up
+            if a in (ROW, COL) and b in (ROW, COL) and a != b and not (self.is_count(lo) and self.is_count(ro)):
+                self.err("u1", "%s%s%s" % (a, "==" if op == "Eq" else "!=", b), "equality comparison of a %s position with a %s quantity: %s %s %s" % (a, b, self.sh(lo), op, self.sh(ro)), span)
+            return None
         return None
+
+    def is_count(self, o, depth=0):
+        """operand is a dimension count: a num_rows / num_cols field, getter, size() component, or a parameter / local
+        so named"""
+        if o["k"] not in ("copy", "move") or depth > 6:
+            return False
+        p = o["p"]
+        key, seeded = self.pkey(p)
+        if seeded:
+            return True
+        if not p["proj"]:
+            nm = self.body.debug_name(p["local"])
+            if nm in ("num_rows", "num_cols"):
+                return True
+        if p["proj"] and all(e["k"] in ("deref",) for e in p["proj"]) or not p["proj"]:
+            d = self.d.single_def(p["local"])
+            if d is not None:
+                if d[0] == "call":
+                    fn = d[2]["func"].get("fn") or {}
+                    return fn.get("name") in ("num_rows", "num_cols")
+                rv = d[3]["rv"]
+                if rv["k"] in ("use", "cast"):
+                    return self.is_count(rv["o"], depth + 1)
+                if rv["k"] == "ref":
+                    return self.is_count({"k": "copy", "p": rv["p"]}, depth + 1)
+        if len(p["proj"]) == 1 and p["proj"][0]["k"] == "field":
+            d = self.d.single_def(p["local"])
+            if d is not None and d[0] == "call" and (d[2]["func"].get("fn") or {}).get("name") == "size":
+                return True
+            if d is not None and d[0] == "stmt" and d[3]["rv"]["k"] == "agg" and d[3]["rv"]["agg"] == "tuple":
+                return self.is_count(d[3]["rv"]["fields"][p["proj"][0]["i"]], depth + 1)
+        return False
 
     def callee_params(self, fn):
         """list index -> (debug name, unit | 'COORD') for the parameters of the crate callee"""
